@@ -42,7 +42,6 @@ CONTRACTS = {
         ],
     ),
     "Tensor.reset": dict(
-        requires=["not same_ref(self.ranks, self.init_ranks)"],
         modifies=T_FIELDS,
         ensures=[
             ("fresh", "fresh_tensor(self)"),
@@ -133,3 +132,74 @@ CONTRACTS["Tensor.__get_rank"] = dict(
     pure=True, requires=["0 <= self.iter_ptr and self.iter_ptr < len(self.ranks)"],
     ensures=[("res", "result == self.ranks[self.iter_ptr].lower()")],
 )
+
+
+# ---------------------------------------------------------------- native small-scope generators (refuter / replay)
+def _tensor_states():
+    from teaal.ir.tensor import Tensor
+    for ranks in ([], ["M"], ["M", "K"], ["K", "M", "N"]):
+        for rp in range(len(ranks) + 1):
+            for ip in range(rp, len(ranks) + 1):
+                for out in (False, True):
+                    for flat in (False, True):
+                        for swz in (False, True):
+                            t = Tensor("A", list(ranks))
+                            if swz and len(ranks) > 1:
+                                t.ranks = list(reversed(ranks))
+                            t.rank_ptr, t.iter_ptr, t.is_output, t.is_flat = rp, ip, out, flat
+                            yield t
+
+
+def _perms(xs):
+    import itertools
+    return [list(p) for p in itertools.permutations(xs)]
+
+
+def _gen_noargs():
+    return ((t, ()) for t in _tensor_states())
+
+
+def _gen_swizzle():
+    for t in _tensor_states():
+        act = t.ranks[t.rank_ptr:]
+        for p in _perms(act)[:6]:
+            yield t.__class__.__new__(t.__class__), None   # placeholder never used
+    return
+
+
+def _gen_swizzle2():
+    import copy
+    for t in _tensor_states():
+        act = t.ranks[t.rank_ptr:]
+        cands = _perms(act)[:6] + [act + ["Z"], act[:-1], ["Q"] + act[1:]]
+        for p in cands:
+            yield copy.deepcopy(t), (list(p),)
+
+
+def _gen_update():
+    import copy
+    for t in _tensor_states():
+        for new in ([], ["P"], ["P1", "P0"], ["K", "M1", "M0"]):
+            yield copy.deepcopy(t), (list(new),)
+
+
+def _gen_init():
+    from teaal.ir.tensor import Tensor
+    for ranks in ([], ["M"], ["M", "K"], ["M", "M"], ["K", "M", "K"], ["A", "B", "C"]):
+        yield Tensor.__new__(Tensor), ("T", list(ranks))
+
+
+def _gen_bool():
+    for t in _tensor_states():
+        for b in (False, True):
+            yield t, (b,)
+
+
+GEN = {k: _gen_noargs for k in (
+    "Tensor.reset", "Tensor.get_ranks", "Tensor.get_init_ranks", "Tensor.get_is_output", "Tensor.root_name",
+    "Tensor.tensor_name", "Tensor.from_fiber", "Tensor.pop", "Tensor.peek", "Tensor.peek_clean",
+    "Tensor.peek_rest", "Tensor.get_access", "Tensor.fiber_name", "Tensor.__get_rank")}
+GEN["Tensor.swizzle"] = _gen_swizzle2
+GEN["Tensor.update_ranks"] = _gen_update
+GEN["Tensor.__init__"] = _gen_init
+GEN["Tensor.set_is_output"] = _gen_bool
